@@ -88,6 +88,29 @@ CLAIMED = {
              "repaired (fix: commit d2484cb: repeated allowed denom counted twice).",
         technique="Lean 4 proof (integer rounding inequalities, guard/effect case analysis) + regenerated facts + differential correspondence",
         ref="§7 C18"),
+    "C02": dict(
+        text="Lean 4 theorems over an executable model of message routing (a nested inductive message tree: MsgEthereumTx, staking, bank, "
+             "authz grant/exec, gov proposal, wasm execute with contract-dispatched messages; the two ante chains' routing and guards; "
+             "authz DispatchActions, gov SubmitProposal and the wasm message handler): for every state without grants from "
+             "Ethereum-only addresses, every accepted transaction and every history of transactions, the EthereumTx handler runs zero "
+             "times outside the EVM ante pipeline, at any nesting depth and under any grant configuration (mutual induction over the "
+             "tree); the invariant is preserved. T1 facts regenerated each run: both ante chains and the extension-option routing. "
+             "Correspondence through full DeliverTx on the real app with generated message trees.",
+        note="Trusted: Lean kernel; harness; extractor. Hypotheses: an address recovered from an Ethereum signature cannot sign a Cosmos "
+             "tx (exercised: eth_secp256k1-signed Cosmos txs are refused), is not a contract nor the gov account.",
+        technique="Lean 4 proof (mutual structural induction over message trees, grant invariant over histories) + regenerated ante-chain "
+                  "facts + differential correspondence",
+        ref="§7 C02"),
+    "C17": dict(
+        text="Lean 4 theorems over the same message-tree model: with the decorator that looks through MsgExec (read off the regenerated "
+             "facts of app/ante/commission.go), an accepted tx whose staking messages are direct or nested in authz MsgExec to any depth "
+             "keeps every validator's commission within 25%; counterexample theorems for the decorator as it was (repaired by fix: "
+             "commit c6f3132) and for contract-dispatched staking messages (known finding C17-wasm-stargate). Correspondence through "
+             "full DeliverTx on the real app (real staking keeper, reflect contract).",
+        note="Trusted: Lean kernel; harness; extractor. The cap theorem excludes wasm-dispatched staking messages (known finding). "
+             "x/staking's own MaxRate/MaxChangeRate rules are outside the model.",
+        technique="Lean 4 proof (mutual structural induction over message trees) + regenerated decorator facts + differential correspondence",
+        ref="§7 C17"),
     "C19": dict(
         text="Lean 4 theorems over an executable model of the per-block EVM index bookkeeping (TxConfig, AddLog, updateBlockBloom and its "
              "four call sites, BlockTxIndex, EndBlock bloom): for every block composition of successful / reverted / failing Ethereum txs "
